@@ -121,3 +121,99 @@ if __name__ == "__main__":
     import sys, muconf
     for s in range(int(sys.argv[1]), int(sys.argv[2])):
         print(muconf.init_line(gen(s, sys.argv[3] if len(sys.argv) > 3 else "C02")))
+
+
+# ------------------------------------------------------------------------------------------------------------------------
+# Generated L2 programs for Note.tla / h_l2 (notes, nsync_wait_n over notes and a counter, nsync_sem_wait_with_cancel_).
+# Every thread must finish under every schedule of a correct implementation:
+#   * the last thread (the finisher) ends by notifying every root, so every note is notified in the end;
+#   * waits on the counter (object 9) finish because the programs contain exactly CV0 unconditional add(-1) calls;
+#   * client contract of nsync_note_free: a note is freed only by a thread that is its only user, and only while it is a leaf
+#     none of whose ancestors is ever freed (frees that race with a notify of a relative that has children are the recorded
+#     findings 6.4-6.6; they are explored in lock-step by the hand-written configurations, where the taint says which window a
+#     failure belongs to).
+def gennote(seed, focus="C08"):
+    """returns a notelib-style configuration dict(tree, NN, CV0, MaxNow, progs)"""
+    NONE = 9999
+    r = random.Random(seed * 104729 + sum(ord(c) for c in focus))
+    k = r.choice([1, 2, 2, 3, 3, 4])
+    tree = []
+    for i in range(1, k + 1):
+        par = 0 if i == 1 or r.random() < 0.25 else r.choice(range(1, i))
+        dl = r.choice([NONE, NONE, NONE, 1, 2])
+        tree.append(dict(id=i, par=par, dl=dl))
+    roots = [e["id"] for e in tree if e["par"] == 0]
+    nthreads = r.choice([2, 3, 3, 4])
+    use_counter = focus in ("C10", "C11", "C13") and r.random() < 0.6 or r.random() < 0.2
+    cv0 = r.choice([1, 2]) if use_counter else 0
+    nn = k
+    progs = [[] for _ in range(nthreads)]
+    users = {}        # note -> set of threads that mention it
+
+    def use(t, a):
+        users.setdefault(a, set()).add(t)
+
+    def lop(name, a=0, b=0, dl=0, x=0, objs=()):
+        return dict(op=name, a=a, b=b, dl=dl, x=x, objs=list(objs))
+
+    def dl():
+        return r.choice([NONE, NONE, 1, 2, -1])
+    wweights = dict(C08=[4, 2, 2, 3, 1], C09=[2, 1, 1, 3, 4], C11=[2, 6, 1, 1, 1], C13=[2, 4, 3, 1, 1], C05=[1, 1, 6, 1, 1], C10=[1, 5, 1, 1, 0]).get(focus, [2, 2, 2, 2, 1])
+    for t in range(nthreads - 1):
+        nops = r.choice([1, 2, 2, 3])
+        for _ in range(nops):
+            kind = r.choices(["wait", "waitn", "swc", "poll", "new"], weights=wweights)[0]
+            a = r.choice(range(1, k + 1))
+            if kind == "wait":
+                progs[t].append(lop("wait", a=a, dl=dl())); use(t, a)
+            elif kind == "waitn":
+                pool = list(range(1, k + 1)) + ([9] if use_counter else [])
+                objs = r.sample(pool, r.choice(range(1, min(len(pool), 3) + 1)))
+                if focus in ("C11", "C13") and k >= 4 and use_counter and r.random() < 0.15:
+                    objs = [1, 2, 3, 4, 9]                     # the heap bookkeeping path (count = 5)
+                for o in objs:
+                    if o != 9:
+                        use(t, o)
+                progs[t].append(lop("waitn", a=int("".join(str(o) for o in objs)), dl=dl(), objs=objs))
+            elif kind == "swc":
+                a0 = a if r.random() < 0.85 else 0
+                d = r.choice([NONE, 1, 2]) if a0 else r.choice([1, 2])
+                # nothing posts this thread's semaphore, so the sleep ends only through the note or the deadline
+                progs[t].append(lop("swc", a=a0, dl=d))
+                if a0:
+                    use(t, a0)
+            elif kind == "poll":
+                progs[t].append(lop("poll", a=a)); use(t, a)
+            elif nn < 5 and len(progs[t]) <= 1:
+                nn += 1
+                par = r.choice([0] + list(range(1, k + 1)))
+                progs[t].append(lop("new", a=nn, b=par, dl=r.choice([NONE, NONE, 1, 2, -1])))
+                if par:
+                    use(t, par)
+                use(t, nn)
+                progs[t].append(r.choice([lop("poll", a=nn), lop("wait", a=nn, dl=r.choice([1, 2, -1]))]))
+                if r.random() < 0.6:
+                    progs[t].append(lop("free", a=nn))        # created, used and freed by the same thread: a leaf nobody else knows
+        if r.random() < 0.25:
+            a = r.choice(range(1, k + 1))
+            progs[t].append(lop("notify", a=a)); use(t, a)
+    # add(-1) calls: exactly CV0 of them, spread over the threads
+    for _ in range(cv0):
+        t = r.randrange(nthreads)
+        progs[t].insert(0, lop("cadd", a=-1))          # first thing a thread does: nobody waits for the counter before its own share of the decrements
+    fin = progs[nthreads - 1]
+    if r.random() < 0.5 and k > 1:
+        a = r.choice(range(1, k + 1)); fin.insert(0, lop("poll", a=a)); use(nthreads - 1, a)
+    for a in roots:
+        fin.append(lop("notify", a=a)); use(nthreads - 1, a)
+    # a free of an initial leaf by its only user (never an ancestor of anything, never shared)
+    children = {e["par"] for e in tree} | {o["b"] for p in progs for o in p if o["op"] == "new"}
+    for e in tree:
+        a = e["id"]
+        if a not in children and len(users.get(a, ())) == 1 and a not in roots and r.random() < 0.5:
+            t = next(iter(users[a]))
+            if t != nthreads - 1 and not any(o["op"] == "free" for o in progs[t]):
+                progs[t].append(lop("free", a=a))
+    progs = [p[:8] for p in progs]
+    maxnow = max([o["dl"] for p in progs for o in p if o["dl"] not in (NONE,) and o["dl"] > 0] + [e["dl"] for e in tree if e["dl"] != NONE] + [0])
+    return dict(tree=tree, NN=max(nn, 1), CV0=cv0, MaxNow=maxnow, progs=progs)
